@@ -93,6 +93,10 @@ Qed.
 (* ================================================================================================ *)
 (* Part 2: the row-id set and [fill]                                                                *)
 
+Lemma Forall2_impl : forall (A B : Type) (P Q : A -> B -> Prop),
+  (forall a b, P a b -> Q a b) -> forall l m, Forall2 P l m -> Forall2 Q l m.
+Proof. intros A B P Q H l m F. induction F; constructor; auto. Qed.
+
 Lemma mem_In : forall x l, py_mem Z.eqb x l = true <-> In x l.
 Proof. exact py_mem_Z_In. Qed.
 
@@ -474,3 +478,294 @@ Proof.
   intros old req Hbad. apply (fill_err_iff req 1) in Hbad. destruct Hbad as [e He].
   unfold do_bulk_add_or_replace. rewrite He. split; [eexists; reflexivity|reflexivity].
 Qed.
+
+(* ================================================================================================ *)
+(* Part 4: the repaired variant                                                                     *)
+
+Definition good_explicit (seen : list Z) (z : Z) : Prop := 0 < z <= MAX_ROW_ID /\ ~ In z seen.
+
+Lemma validate_ok : forall req seen n n',
+  validate_fixed seen n req = PyOk n' ->
+  n <= n' /\
+  (forall z, In z (explicit_ids req) -> good_explicit seen z /\ z < n') /\
+  NoDup (explicit_ids req).
+Proof.
+  induction req as [|r t IH]; intros seen n n' H.
+  - cbn in H. inversion H; subst. split; [lia|]. split; [intros z []|constructor].
+  - cbn [validate_fixed] in H. cbn [explicit_ids flat_map]. destruct (explicit r) as [z|] eqn:He.
+    + destruct (z >? MAX_ROW_ID) eqn:Hh; [discriminate|].
+      destruct ((z =? 0) || py_mem Z.eqb z seen) eqn:Hc; [discriminate|].
+      apply orb_false_iff in Hc. destruct Hc as [Hc1 Hc2].
+      apply Z.eqb_neq in Hc1. apply mem_false in Hc2.
+      pose proof (proj2 (explicit_some _ _ He)) as Hz0.
+      destruct (IH _ _ _ H) as [I1 [I2 I3]].
+      assert (Hgood : good_explicit seen z) by (split; [lia|assumption]).
+      split; [lia|]. split.
+      * intros y [<-|Hy]; [split; [assumption|lia]|].
+        destruct (I2 y Hy) as [[G1 G2] G4]. split; [|assumption].
+        split; [assumption|]. intros Hin. apply G2. apply in_or_app. left. assumption.
+      * cbn [app]. constructor; [|assumption]. intros Hin. destruct (I2 z Hin) as [[_ G2] _].
+        apply G2. apply in_or_app. right. left. reflexivity.
+    + cbn [app]. apply (IH _ _ _ H).
+Qed.
+
+Lemma validate_accepts : forall req seen n,
+  (forall z, In z (explicit_ids req) -> good_explicit seen z) ->
+  NoDup (explicit_ids req) ->
+  exists n', validate_fixed seen n req = PyOk n'.
+Proof.
+  induction req as [|r t IH]; intros seen n Hg Hnd.
+  - eexists; reflexivity.
+  - cbn [validate_fixed]. cbn [explicit_ids flat_map] in Hg, Hnd. destruct (explicit r) as [z|] eqn:He.
+    + destruct (Hg z (or_introl eq_refl)) as [G1 G2].
+      replace (z >? MAX_ROW_ID) with false by (symmetry; rewrite Z.gtb_ltb; apply Z.ltb_ge; lia).
+      replace (z =? 0) with false by (symmetry; apply Z.eqb_neq; lia).
+      replace (py_mem Z.eqb z seen) with false by (symmetry; apply mem_false; assumption).
+      cbn [orb]. cbn [app] in Hnd. inversion Hnd as [|? ? Hz Hnd']; subst.
+      apply IH; [|assumption].
+      intros y Hy. destruct (Hg y (or_intror Hy)) as [Y1 Y2]. split; [assumption|].
+      intros Hin. apply in_app_or in Hin. destruct Hin as [Hin|[<-|[]]]; [contradiction|contradiction].
+    + cbn [app] in Hg, Hnd. apply IH; assumption.
+Qed.
+
+Lemma fill_autos_elems : forall req n o, In o (fill_autos n req) -> In o (explicit_ids req) \/ n <= o.
+Proof.
+  induction req as [|r t IH]; intros n o H; [contradiction|].
+  cbn [fill_autos] in H. cbn [explicit_ids flat_map]. destruct (explicit r) as [z|].
+  - destruct H as [<-|H]; [left; left; reflexivity|]. destruct (IH _ _ H); [left; right; assumption|right; assumption].
+  - destruct H as [<-|H]; [right; lia|]. destruct (IH _ _ H); [left; assumption|right; lia].
+Qed.
+
+Lemma fill_autos_explicit_in : forall req n z, In z (explicit_ids req) -> In z (fill_autos n req).
+Proof.
+  induction req as [|r t IH]; intros n z H; [contradiction|].
+  cbn [fill_autos]. cbn [explicit_ids flat_map] in H. destruct (explicit r) as [y|].
+  - destruct H as [<-|H]; [left; reflexivity|right; apply IH; assumption].
+  - right. apply IH. assumption.
+Qed.
+
+Lemma fill_autos_nodup : forall req n, NoDup (explicit_ids req) ->
+  (forall z, In z (explicit_ids req) -> z < n) -> NoDup (fill_autos n req).
+Proof.
+  induction req as [|r t IH]; intros n Hnd Hlt; [constructor|].
+  cbn [fill_autos]. cbn [explicit_ids flat_map] in Hnd, Hlt. destruct (explicit r) as [z|].
+  - cbn [app] in Hnd. inversion Hnd as [|? ? Hz Hnd']; subst. constructor.
+    + intros Hin. destruct (fill_autos_elems _ _ _ Hin) as [H|H]; [contradiction|].
+      specialize (Hlt z (or_introl eq_refl)). lia.
+    + apply IH; [assumption|]. intros y Hy. apply Hlt. right. assumption.
+  - cbn [app] in Hnd, Hlt. constructor.
+    + intros Hin. destruct (fill_autos_elems _ _ _ Hin) as [H|H]; [|lia]. specialize (Hlt n H). lia.
+    + apply IH; [assumption|]. intros y Hy. specialize (Hlt y Hy). lia.
+Qed.
+
+Lemma fill_autos_shape : forall req n,
+  Forall2 (fun r o => match explicit r with Some z => o = z | None => n <= o end) req (fill_autos n req).
+Proof.
+  induction req as [|r t IH]; intros n; [constructor|].
+  cbn [fill_autos]. destruct (explicit r) as [z|] eqn:He.
+  - constructor; [rewrite He; reflexivity|apply IH].
+  - constructor; [rewrite He; lia|].
+    eapply Forall2_impl; [|apply (IH (n + 1))]. intros a b Hab. cbv beta in *. destruct (explicit a); [assumption|lia].
+Qed.
+
+(* what validation guarantees about the ids then handed to the doc action *)
+Lemma fixed_out_facts : forall req n0 n',
+  1 <= n0 -> validate_fixed [] n0 req = PyOk n' ->
+  let out := fill_autos n' req in
+  NoDup out /\ (forall o, In o out -> 0 < o) /\
+  Forall2 (fun r o => match explicit r with Some z => o = z | None => n0 <= o end) req out.
+Proof.
+  intros req n0 n' Hn0 Hv out.
+  destruct (validate_ok _ _ _ _ Hv) as [Hn [Hg Hnd]].
+  split; [apply fill_autos_nodup; [assumption|intros z Hz; apply (Hg z Hz)]|]. split.
+  - intros o Ho. destruct (fill_autos_elems _ _ _ Ho) as [H|H]; [|lia].
+    destruct (Hg o H) as [[G _] _]. lia.
+  - eapply Forall2_impl; [|apply fill_autos_shape]. intros a b Hab. cbv beta in *.
+    destruct (explicit a); [assumption|lia].
+Qed.
+
+Lemma fixed_add_accepted : forall rs req out rs',
+  do_bulk_add_or_replace_fixed false rs req = Accepted out rs' ->
+  exists n', validate_fixed [] (next_row_id rs) req = PyOk n' /\ out = fill_autos n' req /\
+             existsb (fun r => row_in r rs) out = false /\ rs' = add_rows rs out.
+Proof.
+  intros rs req out rs' H. unfold do_bulk_add_or_replace_fixed in H.
+  destruct (validate_fixed [] (next_row_id rs) req) as [n'|] eqn:Hv; [|discriminate].
+  unfold finish, doc_bulk_add in H.
+  destruct (existsb (fun r => row_in r rs) (fill_autos n' req)) eqn:Hex; [discriminate|]. inversion H; subst.
+  exists n'. repeat split; try reflexivity. assumption.
+Qed.
+
+(* C27_alloc at full strength for the repaired code *)
+Lemma alloc_fixed : forall rs req, wf_rows rs ->
+  alloc_statement (do_bulk_add_or_replace_fixed false) rs req.
+Proof.
+  intros rs req Hwf out rs' H.
+  destruct (fixed_add_accepted _ _ _ _ H) as [n' [Hv [-> [Hex ->]]]].
+  destruct (fixed_out_facts req _ n' (next_row_id_pos rs) Hv) as [Hnd [Hpos Hsh]].
+  split; [assumption|]. split; [|split; [|split]].
+  - intros r Hr. eapply existsb_row_in_false; [eassumption|assumption|apply Hpos; assumption].
+  - eapply Forall2_impl; [|exact Hsh]. intros a b Hab. cbv beta in *. destruct (explicit a); [assumption|].
+    intros e He. apply next_row_id_gt in He. lia.
+  - intros r. rewrite add_rows_In. split; [tauto|]. intros [Hr|Hr]; [tauto|]. right. split; [assumption|apply Hpos; assumption].
+  - apply add_rows_wf. assumption.
+Qed.
+
+Lemma alloc_fixed_replace : forall old req, wf_rows old ->
+  alloc_statement (replace_as_add do_bulk_add_or_replace_fixed old) [] req.
+Proof.
+  intros old req Hwf out rs' H. unfold replace_as_add, do_bulk_add_or_replace_fixed in H.
+  destruct (validate_fixed [] 1 req) as [n'|] eqn:Hv; [|discriminate].
+  cbn [finish] in H. inversion H; subst.
+  destruct (fixed_out_facts req 1 n' (Z.le_refl 1) Hv) as [Hnd [Hpos Hsh]].
+  split; [assumption|]. split; [intros r _ []|]. split; [|split].
+  - eapply Forall2_impl; [|exact Hsh]. intros a b Hab. cbv beta in *. destruct (explicit a); [assumption|]. intros e [].
+  - intros r. unfold doc_replace. rewrite add_rows_In. cbn [In]. split; [tauto|].
+    intros [[]|Hr]. right. split; [assumption|apply Hpos; assumption].
+  - apply add_rows_wf. apply wf_nil.
+Qed.
+
+(* C27_rejects at full strength for the repaired code *)
+Lemma rejects_fixed : forall replace rs req, wf_rows rs ->
+  rejects_statement (do_bulk_add_or_replace_fixed replace) (negb replace) rs req.
+Proof.
+  intros replace rs req Hwf Hbad.
+  assert (E : exists e, do_bulk_add_or_replace_fixed replace rs req = Rejected e).
+  { unfold do_bulk_add_or_replace_fixed.
+    destruct (validate_fixed [] (if replace then 1 else next_row_id rs) req) as [n'|e] eqn:Hv;
+      [|eexists; reflexivity].
+    destruct (validate_ok _ _ _ _ Hv) as [_ [Hg Hnd]].
+    destruct Hbad as [[z [Hz1 Hz2]]|[H0|[Hd|[Hc [z [Hz1 Hz2]]]]]].
+    - exfalso. destruct (Hg z Hz1) as [[G _] _]. lia.
+    - exfalso. destruct (Hg 0 H0) as [[G _] _]. lia.
+    - contradiction.
+    - destruct replace; [discriminate|]. unfold finish, doc_bulk_add.
+      assert (Hex : existsb (fun r => row_in r rs) (fill_autos n' req) = true).
+      { apply existsb_exists. exists z. split; [apply fill_autos_explicit_in; assumption|].
+        unfold row_in. apply andb_true_iff. split; [|apply mem_In; assumption].
+        apply Z.ltb_lt. destruct Hwf as [_ Hp]. rewrite Forall_forall in Hp. apply Hp. assumption. }
+      rewrite Hex. eexists; reflexivity. }
+  split; [assumption|]. destruct E as [e ->]. reflexivity.
+Qed.
+
+(* ... and it does not over-reject: every request whose explicit ids are usable is accepted *)
+Lemma accepts_fixed : forall replace rs req, wf_rows rs ->
+  (forall z, In z (explicit_ids req) -> 0 < z <= MAX_ROW_ID /\ (replace = false -> ~ In z rs)) ->
+  NoDup (explicit_ids req) ->
+  exists out rs', do_bulk_add_or_replace_fixed replace rs req = Accepted out rs'.
+Proof.
+  intros replace rs req Hwf Hg Hnd. unfold do_bulk_add_or_replace_fixed.
+  destruct (validate_accepts req [] (if replace then 1 else next_row_id rs)) as [n' Hv].
+  { intros z Hz. destruct (Hg z Hz) as [G1 G2]. split; [assumption|intros []]. }
+  { assumption. }
+  rewrite Hv. destruct replace; cbn [finish]; [eexists; eexists; reflexivity|].
+  unfold doc_bulk_add.
+  destruct (existsb (fun r => row_in r rs) (fill_autos n' req)) eqn:Hex; [|eexists; eexists; reflexivity].
+  exfalso. apply existsb_exists in Hex. destruct Hex as [o [Ho1 Ho2]].
+  unfold row_in in Ho2. apply andb_true_iff in Ho2. destruct Ho2 as [_ Ho2]. apply mem_In in Ho2.
+  destruct (validate_ok _ _ _ _ Hv) as [Hn _].
+  destruct (fill_autos_elems _ _ _ Ho1) as [H|H].
+  - destruct (Hg o H) as [_ G]. apply (G eq_refl). assumption.
+  - apply next_row_id_gt in Ho2. lia.
+Qed.
+
+(* The repair changes nothing for requests that are purely automatic: same ids, same rows. *)
+Lemma fill_all_auto : forall req n, explicit_ids req = [] -> fill n req = PyOk (fill_autos n req).
+Proof.
+  induction req as [|r t IH]; intros n H; [reflexivity|].
+  cbn [explicit_ids flat_map] in H. cbn [fill fill_autos]. destruct (explicit r) as [z|] eqn:He; [discriminate|].
+  rewrite (fill_one_auto n r He). replace (Z.max n n + 1) with (n + 1) by lia.
+  rewrite (IH (n + 1) H). reflexivity.
+Qed.
+
+Lemma validate_all_auto : forall req seen n, explicit_ids req = [] ->
+  validate_fixed seen n req = PyOk n.
+Proof.
+  induction req as [|r t IH]; intros seen n H; [reflexivity|].
+  cbn [explicit_ids flat_map] in H. cbn [validate_fixed]. destruct (explicit r); [discriminate|]. apply IH. assumption.
+Qed.
+
+Lemma fixed_same_when_all_auto : forall replace rs req, explicit_ids req = [] ->
+  do_bulk_add_or_replace_fixed replace rs req = do_bulk_add_or_replace replace rs req.
+Proof.
+  intros replace rs req H. unfold do_bulk_add_or_replace_fixed, do_bulk_add_or_replace.
+  rewrite (validate_all_auto req [] _ H), (fill_all_auto req _ H). reflexivity.
+Qed.
+
+(* ================================================================================================ *)
+(* Part 5: the unchanged code violates the full statements (one witness per failure mode)           *)
+
+Lemma wf_12 : wf_rows [1; 2].
+Proof. split; repeat constructor; cbn; intuition lia. Qed.
+
+(* BulkAddRecord T [5,5] on an empty table: returns [5,5], one row *)
+Lemma refuted_repeat :
+  do_bulk_add_or_replace false [] [Some 5; Some 5] = Accepted [5; 5] [5] /\
+  ~ alloc_statement (do_bulk_add_or_replace false) [] [Some 5; Some 5] /\
+  ~ rejects_statement (do_bulk_add_or_replace false) true [] [Some 5; Some 5].
+Proof.
+  split; [vm_compute; reflexivity|]. split.
+  - intros H. destruct (H [5; 5] [5] eq_refl) as [Hnd _].
+    inversion Hnd as [|? ? Hn _]. apply Hn. left. reflexivity.
+  - intros H. destruct H as [[e He] _]; [|vm_compute in He; discriminate].
+    right. right. left. intros Hnd. vm_compute in Hnd. inversion Hnd as [|? ? Hn _]. apply Hn. left. reflexivity.
+Qed.
+
+(* BulkAddRecord T [0]: returns [0], no row *)
+Lemma refuted_zero :
+  do_bulk_add_or_replace false [] [Some 0] = Accepted [0] [] /\
+  ~ alloc_statement (do_bulk_add_or_replace false) [] [Some 0] /\
+  ~ rejects_statement (do_bulk_add_or_replace false) true [] [Some 0].
+Proof.
+  split; [vm_compute; reflexivity|]. split.
+  - intros H. destruct (H [0] [] eq_refl) as [_ [_ [_ [Hin _]]]].
+    destruct (proj2 (Hin 0) (or_intror (or_introl eq_refl))).
+  - intros H. destruct H as [[e He] _]; [|vm_compute in He; discriminate].
+    right. left. left. reflexivity.
+Qed.
+
+(* BulkAddRecord T [None,3,None] on rows {1,2}: returns [3,3,5]; the request itself is satisfiable *)
+Lemma refuted_auto_collision :
+  do_bulk_add_or_replace false [1; 2] [None; Some 3; None] = Accepted [3; 3; 5] [1; 2; 3; 5] /\
+  ~ alloc_statement (do_bulk_add_or_replace false) [1; 2] [None; Some 3; None] /\
+  ~ bad_request true [1; 2] [None; Some 3; None].
+Proof.
+  split; [vm_compute; reflexivity|]. split.
+  - intros H. destruct (H [3; 3; 5] [1; 2; 3; 5] eq_refl) as [Hnd _].
+    inversion Hnd as [|? ? Hn _]. apply Hn. left. reflexivity.
+  - intros [[z [Hz1 Hz2]]|[H0|[Hd|[_ [z [Hz1 Hz2]]]]]]; vm_compute in *.
+    + destruct Hz1 as [<-|[]]. discriminate.
+    + destruct H0 as [H0|[]]. discriminate.
+    + apply Hd. repeat constructor. intros [].
+    + destruct Hz1 as [<-|[]]. destruct Hz2 as [H|[H|[]]]; discriminate.
+Qed.
+
+(* the same two defects through ReplaceTableData *)
+Lemma refuted_replace :
+  do_bulk_add_or_replace true [1; 2] [Some 5; Some 5] = Accepted [5; 5] [5] /\
+  do_bulk_add_or_replace true [1; 2] [Some 0] = Accepted [0] [] /\
+  do_bulk_add_or_replace true [1; 2] [None; Some 1; None] = Accepted [1; 1; 3] [1; 3].
+Proof. repeat split; vm_compute; reflexivity. Qed.
+
+Lemma alloc_full_refuted : ~ alloc_full do_bulk_add_or_replace.
+Proof.
+  intros [H _]. apply (proj1 (proj2 refuted_auto_collision)). apply H. exact wf_12.
+Qed.
+
+Lemma rejects_full_refuted : ~ rejects_full do_bulk_add_or_replace.
+Proof.
+  intros H. apply (proj2 (proj2 refuted_repeat)). apply (H false). apply wf_nil.
+Qed.
+
+Lemma alloc_full_fixed : alloc_full do_bulk_add_or_replace_fixed.
+Proof. split; [exact alloc_fixed|exact alloc_fixed_replace]. Qed.
+
+Lemma rejects_full_fixed : rejects_full do_bulk_add_or_replace_fixed.
+Proof. exact rejects_fixed. Qed.
+
+(* on the three witnesses the repaired code rejects, rejects, and allocates distinct ids *)
+Lemma fixed_on_witnesses :
+  do_bulk_add_or_replace_fixed false [] [Some 5; Some 5] = Rejected PyValueError /\
+  do_bulk_add_or_replace_fixed false [] [Some 0] = Rejected PyValueError /\
+  do_bulk_add_or_replace_fixed false [1; 2] [None; Some 3; None] = Accepted [4; 3; 5] [1; 2; 4; 3; 5].
+Proof. repeat split; vm_compute; reflexivity. Qed.
